@@ -2,9 +2,19 @@
 import vlib
 
 TRUSTED = [
-    "hand-written model coq/C13/DrillModel.v of engine/vivid/cluster/drillmaster_actor.go (onActorOf, onTerminated) plus the "
-    "name rule and the 'already exists' panic of vivid ActorOf, tied by differential runs of the real actor "
-    "(harness/cmd/c13drill through hook engine/vivid/cluster/verif_hooks.go) — not a translation",
+    "hand-written model coq/C13/DrillModel.v of engine/vivid/cluster/drillmaster_actor.go (onActorOf, onTerminated) and of "
+    "the member wrapper engine/vivid/cluster/actor.go (it tells the manager nothing when it begins to terminate), plus the "
+    "name rule and the 'already exists' panic of vivid ActorOf and vivid's two-phase termination (a Terminating actor stays "
+    "registered under its name until tryTerminated unregisters it and notifies the parent), tied by differential runs of the "
+    "real actor (harness/cmd/c13drill through hook engine/vivid/cluster/verif_hooks.go) — not a translation",
+    "the termination window is produced by the harness: the member's OnTerminate handler (or that of a child it spawned) "
+    "blocks on a channel of the harness; inside the window the member cannot be pinged, the actor instance behind a "
+    "returned address is read from the harness's launch log (last launch under that name); the second window, between "
+    "the member's unregistration and the manager's handling of the notice, is not controlled (the harness waits it out)",
+    "descriptor configurators of an ability (WithAbility(name, provider, configurator...)) are not part of the model: "
+    "the model says the child name is len(identity)-identity-ability whatever they set; that the manager's naming is "
+    "applied after them is checked by runs with abilities declared with a name prefix, a name, both, two configurators, "
+    "harmless options only and a slice with spare capacity (counted in the evidence distribution), not proved",
     "the manager is an actor: its mailbox serialises requests, so every schedule of concurrent callers is one of the "
     "sequential histories the theorems quantify over (mailbox serialisation itself is property C01/C02)",
     "Go harness + generators + monitor (harness/cmd/c13drill, harness/vh), bin/check, lib/vlib.py; vivid ActorSystem, "
@@ -16,12 +26,22 @@ MANIFEST = {
             "length-prefixed child names) Coq proves over all histories of lookups and child terminations: no request "
             "makes the manager fail, an ability that is not offered is answered with an error, all lookups of a pair "
             "between two terminations return one reference and one actor instance, an actor is created at most once "
-            "per lifetime, different pairs never share a reference or an actor. The same model is run in Coq on every "
-            "recorded run of the real actor (sequential, burst and concurrent client actors), including its members "
+            "per lifetime, different pairs never share a reference or an actor. Termination has two phases in the "
+            "model as in vivid: while a member is terminating (still registered under its name, the manager not yet "
+            "notified) it keeps its slot — the manager's table, the taken names and the creation log are unchanged, a "
+            "lookup of the pair is answered with the old reference, creates nothing and cannot fail the manager; only "
+            "a completed termination pays for a new creation. The same model is run in Coq on every "
+            "recorded run of the real actor (sequential, burst and concurrent client actors; half of the sequential "
+            "histories hold members in the Terminating state and look the same and other pairs up inside that window; "
+            "half of the nodes declare abilities with descriptor configurators of their own that set a name prefix "
+            "and/or a name, which must not change any answer), including its members "
             "table and launch counts; a Go monitor restates the property on the observed answers.",
     "note": "needs hook H3 (engine/vivid/cluster/verif_hooks.go, build tag verif) and fixes/C13-*.patch; the derivation "
             "identity-ability of the unrepaired code is refuted in Coq (C13_*_refuted_for_dash_naming) and proved "
-            "safe only for identities without '-'. memberlist, gossip and ActorOfC's node choice are out of scope.",
+            "safe only for identities without '-'. A manager that released the pair when its member BEGINS to "
+            "terminate is shown to panic on the next lookup (Example C13_example_release_at_begin_would_fail). A "
+            "lookup inside the window returns a reference whose actor no longer handles user messages; the property "
+            "text does not forbid that. memberlist, gossip and ActorOfC's node choice are out of scope.",
     "technique": "Coq invariant proofs over an executable list machine + differential runs of the real actor + Go monitor",
 }
 
